@@ -7,23 +7,31 @@ cases:   extra executable-postcondition cases swept as a labelled stand-in
          automatically)
 """
 
+def _gf255_k(names, quick_fields=("gf25519",), all_fields=("gf25519", "gf255e", "gf255s")):
+    out = []
+    for f in all_fields:
+        for n in names:
+            out.append(("gf255::%s::%s" % (f, n), "quick" if f in quick_fields else "thorough", "full-domain"))
+    return out
+
+
 PROPS = {
     "C01": dict(
         title="Field arithmetic is exact for every element representation",
         verus=[("w64_prim", None, "quick"), ("gf255_m64_lin", None, "quick"), ("gf255_m64_shift", None, "quick")],
-        kani=[],
+        kani=_gf255_k(["k_add", "k_sub", "k_neg", "k_half"]),
         cases=["gf255_mul", "gf255_square", "gf255_xsquare", "gf255_mul_small"],
     ),
     "C05": dict(
         title="Field and scalar encodings are canonical; decoding is strict",
         verus=[("gf255_m64_lin", None, "quick")],
-        kani=[],
+        kani=_gf255_k(["k_normalized_encode", "k_decode_ct32", "k_decode_ct_badlen"]),
         cases=["gf255_encode", "gf255_decode_ct", "gf255_decode_opt", "gf255_decode_reduce", "gf255_roundtrip"],
     ),
     "C20": dict(
         title="Masked selection primitives select exactly as their control word says",
         verus=[("gf255_m64_lin", None, "quick")],
-        kani=[],
+        kani=_gf255_k(["k_iszero_equals", "k_cond_select_cswap"]),
         cases=["gf255_equals"],
     ),
 }
